@@ -398,9 +398,9 @@ def r4(ctx, R):
     R.inst("get_spec_from_value searches the asking model's IOs and the absolute-path ones only")
     iv = [norm(v) for v in assigned_value(gs, "ios")]
     upd = [c for c in q.calls(gs, name="update", recv="ios")]
-    gen = [n_ for n_ in walk_local(gs.node) if isinstance(n_, ast.GeneratorExp)]
+    its_ = [norm(n_.iter) for n_ in ast.walk(gs.node) if isinstance(n_, (ast.For, ast.comprehension))]
     if iv != ["self.get_ios(io_group)"] or not upd or [norm(a) for a in upd[0].args] != ["self.get_ios(None)"] or \
-            not gen or norm(gen[0].generators[0].iter) != "ios.values()":
+            "ios.values()" not in its_ or any("self.ios" in t for t in its_):
         R.bad(gs, gs.node, "a value's spec is looked up across all open models: closing or editing one model deletes "
                            "another model's IOSpec for the same object", stmt="ios = get_ios(io_group) + get_ios(None)")
     gi = ctx.func("IOManager.get_ios")
